@@ -472,7 +472,11 @@ static inline int pbt_main(int argc, char** argv, const char* property_id, void*
 	int tindex = -1;
 	for (auto& t : targets()) {
 		++tindex;
-		if (!R.only.empty() && t.name.find(R.only) == std::string::npos) continue;
+		if (!R.only.empty()) {  // --only a|b|c : keep targets whose name contains one of the alternatives
+			bool keep = false; size_t p0 = 0;
+			while (p0 <= R.only.size()) { size_t e = R.only.find('|', p0); if (e == std::string::npos) e = R.only.size(); if (e > p0 && t.name.find(R.only.substr(p0, e - p0)) != std::string::npos) keep = true; p0 = e + 1; }
+			if (!keep) continue;
+		}
 		R.cur_target = tindex;
 		TargetResult r = R.run_target(t);
 		if (!first) js += ",\n";
